@@ -7,6 +7,8 @@ Import ListNotations.
 From ABNF Require Import Base Engine Spec EngineSound AbnfRead Registry GenTypes Loader Bundled RfcSpec
      Tables Visit Visitor VisitorProps.
 
+Local Open Scope list_scope.
+
 Definition rid_meta (nm : string) : rid :=
   match rid_of (r_boot tt) 1%N nm with Some r => r | None => 0%N end.
 Definition rid_core (nm : string) : rid :=
@@ -16,6 +18,7 @@ Definition G : grammar := of_list l_meta.
 Definition mkrule (nm : string) (d : expr) : option rule :=
   Some {| rname := s_of nm; rdef := Some d; rexcl := None |}.
 
+Section Defs.
 Local Open Scope N_scope.
 Local Ltac dd := vm_compute; reflexivity.
 
@@ -129,4 +132,276 @@ Lemma def_quoted_string : G 38 = mkrule "quoted-string"
 Lemma def_rulelist : G 39 = mkrule "rulelist"
   (ERep 2 1 None (EAlt false [ERef 16; ECat [ERep 1 0 None (ERef 17); ERef 18]])). Proof. dd. Qed.
 
+End Defs.
 Opaque l_meta r_boot G.
+
+(* ------------------------------------------------------------------------------------------ *)
+(** * Inversion toolkit *)
+Lemma rev'_rev {A} (l : list A) : rev' l = rev l.
+Proof. unfold rev'. rewrite rev_alt. reflexivity. Qed.
+
+Lemma nvalue_Nd nm ch : nvalue (Nd nm ch) = flat_map nvalue ch.
+Proof. reflexivity. Qed.
+Lemma nvalue_Leaf v o l : nvalue (Leaf v o l) = v.
+Proof. reflexivity. Qed.
+Lemma nsvalue_app a b : nsvalue (a ++ b) = nsvalue a ++ nsvalue b.
+Proof. unfold nsvalue. apply flat_map_app. Qed.
+Lemma nsvalue_one n : nsvalue [n] = nvalue n.
+Proof. unfold nsvalue. cbn [flat_map]. apply app_nil_r. Qed.
+Lemma nsvalue_nil : nsvalue [] = [].
+Proof. reflexivity. Qed.
+Lemma nsvalue_cons n l : nsvalue (n :: l) = nvalue n ++ nsvalue l.
+Proof. reflexivity. Qed.
+
+(* fold_cp: the letters are the only characters with two spellings *)
+Lemma fold_cp_inv c k : fold_cp c = k ->
+  c = k \/ ((97 <= k)%N /\ (k <= 122)%N /\ c = (k - 32)%N).
+Proof.
+  unfold fold_cp. destruct (N.leb_spec 65 c); destruct (N.leb_spec c 90); cbn [andb]; intros <-;
+    try (left; reflexivity). right. repeat split; lia.
+Qed.
+Lemma fold_cp_nonletter c k : fold_cp c = k -> ((k <? 97) || (122 <? k))%N = true -> c = k.
+Proof.
+  intros H Hk. destruct (fold_cp_inv c k H) as [E|(A & B & _)]; [exact E|].
+  apply orb_true_iff in Hk. destruct Hk as [Hk|Hk]; apply N.ltb_lt in Hk; lia.
+Qed.
+
+Section Inv.
+  Variable s : str.
+  Definition sk (i : nat) : str := skipn i s.
+
+  Lemma sk_len i : length (sk i) = length s - i.
+  Proof. unfold sk. apply skipn_length. Qed.
+  Lemma sk_nth i c : nth_error s i = Some c -> sk i = c :: sk (i + 1).
+  Proof.
+    unfold sk. revert i. induction s as [|x r IH]; intros [|i] H; cbn in H; try discriminate.
+    - injection H as ->. reflexivity.
+    - cbn [skipn]. apply IH. exact H.
+  Qed.
+  Lemma sk_slice i n : i + n <= length s -> sk i = slice s i n ++ sk (i + n) /\ length (slice s i n) = n.
+  Proof.
+    intros H. split.
+    - unfold sk, slice. rewrite skipn_add_. symmetry. apply firstn_skipn.
+    - apply slice_length. exact H.
+  Qed.
+  Lemma sk_end i : length s <= i -> sk i = [].
+  Proof. intros H. unfold sk. apply skipn_all2. exact H. Qed.
+
+  Lemma D_cat_inv e es i ns k : D G s (ECat (e :: es)) i ns k ->
+    exists j n1 n2, ns = n1 ++ n2 /\ D G s e i n1 j /\ D G s (ECat es) j n2 k.
+  Proof. intros H. inversion H; subst. eauto 8. Qed.
+  Lemma D_cat_nil_inv i ns k : D G s (ECat []) i ns k -> ns = [] /\ k = i.
+  Proof. intros H. inversion H; subst. split; reflexivity. Qed.
+  Lemma D_cat1_inv a i ns k : D G s (ECat [a]) i ns k -> D G s a i ns k.
+  Proof.
+    intros H. destruct (D_cat_inv _ _ _ _ _ H) as (j & n1 & n2 & -> & H1 & H2).
+    apply D_cat_nil_inv in H2. destruct H2 as [-> ->]. rewrite app_nil_r. exact H1.
+  Qed.
+  Lemma D_cat2_inv a b i ns k : D G s (ECat [a; b]) i ns k ->
+    exists j n1 n2, ns = n1 ++ n2 /\ D G s a i n1 j /\ D G s b j n2 k.
+  Proof.
+    intros H. destruct (D_cat_inv _ _ _ _ _ H) as (j & n1 & n2 & -> & H1 & H2).
+    apply D_cat1_inv in H2. eauto 8.
+  Qed.
+  Lemma D_cat3_inv a b c i ns k : D G s (ECat [a; b; c]) i ns k ->
+    exists j1 j2 n1 n2 n3, ns = n1 ++ n2 ++ n3 /\ D G s a i n1 j1 /\ D G s b j1 n2 j2 /\ D G s c j2 n3 k.
+  Proof.
+    intros H. destruct (D_cat_inv _ _ _ _ _ H) as (j & n1 & n2 & -> & H1 & H2).
+    apply D_cat2_inv in H2. destruct H2 as (j2 & m1 & m2 & -> & H2 & H3). eauto 12.
+  Qed.
+  Lemma D_cat4_inv a b c d i ns k : D G s (ECat [a; b; c; d]) i ns k ->
+    exists j1 j2 j3 n1 n2 n3 n4, ns = n1 ++ n2 ++ n3 ++ n4 /\
+      D G s a i n1 j1 /\ D G s b j1 n2 j2 /\ D G s c j2 n3 j3 /\ D G s d j3 n4 k.
+  Proof.
+    intros H. destruct (D_cat_inv _ _ _ _ _ H) as (j & n1 & n2 & -> & H1 & H2).
+    apply D_cat3_inv in H2. destruct H2 as (j2 & j3 & m1 & m2 & m3 & -> & H2 & H3 & H4).
+    exists j, j2, j3, n1, m1, m2, m3. auto.
+  Qed.
+  Lemma D_cat5_inv a b c d e i ns k : D G s (ECat [a; b; c; d; e]) i ns k ->
+    exists j1 j2 j3 j4 n1 n2 n3 n4 n5, ns = n1 ++ n2 ++ n3 ++ n4 ++ n5 /\
+      D G s a i n1 j1 /\ D G s b j1 n2 j2 /\ D G s c j2 n3 j3 /\ D G s d j3 n4 j4 /\ D G s e j4 n5 k.
+  Proof.
+    intros H. destruct (D_cat_inv _ _ _ _ _ H) as (j & n1 & n2 & -> & H1 & H2).
+    apply D_cat4_inv in H2. destruct H2 as (j2 & j3 & j4 & m1 & m2 & m3 & m4 & -> & H2 & H3 & H4 & H5).
+    exists j, j2, j3, j4, n1, m1, m2, m3, m4. auto 10.
+  Qed.
+
+  Lemma D_alt_inv fm es i ns j : D G s (EAlt fm es) i ns j -> exists e, In e es /\ D G s e i ns j.
+  Proof. intros H. inversion H; subst. eauto. Qed.
+  Lemma D_rep_inv id mn mx e i ns j : D G s (ERep id mn mx e) i ns j ->
+    exists n, DI G s e n i ns j /\ mn <= n /\ (forall m, mx = Some m -> n <= m).
+  Proof. intros H. inversion H; subst. eauto. Qed.
+  Lemma D_ref_inv r nm d i ns j : G r = mkrule nm d -> D G s (ERef r) i ns j ->
+    exists ch, ns = [Nd (s_of nm) ch] /\ D G s d i ch j.
+  Proof.
+    intros HG H. inversion H as [| | | | | |r0 ru d0 i0 j0 ns0 HG' Hd HD]; subst.
+    rewrite HG in HG'. unfold mkrule in HG'. injection HG' as <-. cbn in Hd. injection Hd as <-.
+    cbn [rname]. eauto.
+  Qed.
+  Lemma DI_0_inv e i ns j : DI G s e 0 i ns j -> ns = [] /\ j = i.
+  Proof. intros H. inversion H; subst. split; reflexivity. Qed.
+  Lemma DI_S_inv e n i ns k : DI G s e (S n) i ns k ->
+    exists j n1 n2, ns = n1 ++ n2 /\ D G s e i n1 j /\ DI G s e n j n2 k.
+  Proof. intros H. inversion H; subst. eauto 8. Qed.
+  (* an option: zero or one *)
+  Lemma D_opt_inv id e i ns j : D G s (ERep id 0 (Some 1) e) i ns j ->
+    (ns = [] /\ j = i) \/ D G s e i ns j.
+  Proof.
+    intros H. apply D_rep_inv in H. destruct H as (n & H & _ & Hmx). specialize (Hmx 1 eq_refl).
+    destruct n as [|[|n]]; [|clear Hmx|lia].
+    - left. apply DI_0_inv in H. exact H.
+    - right. apply DI_S_inv in H. destruct H as (k & n1 & n2 & -> & H1 & H2).
+      apply DI_0_inv in H2. destruct H2 as [-> ->]. rewrite app_nil_r. exact H1.
+  Qed.
+
+  (* literals and ranges *)
+  Lemma D_lit_inv cs v i ns j : D G s (ELit cs v) i ns j ->
+    exists w, ns = [Leaf w i (length v)] /\ j = i + length v /\ sk i = w ++ sk j /\
+              length w = length v /\ (if cs then w = v else fold_str w = fold_str v).
+  Proof.
+    intros H. inversion H as [cs0 v0 i0 [Hle Hc]| | | | | |]; subst.
+    destruct (sk_slice i (length v) Hle) as [E L]. exists (slice s i (length v)).
+    repeat split; auto.
+  Qed.
+  Lemma D_lit1_inv cs k i ns j : D G s (ELit cs [k]) i ns j ->
+    exists c, ns = [Leaf [c] i 1] /\ j = i + 1 /\ sk i = c :: sk j /\
+              (if cs then c = k else fold_cp c = fold_cp k).
+  Proof.
+    intros H. apply D_lit_inv in H. destruct H as (w & -> & -> & E & L & Hc). cbn [length] in *.
+    destruct w as [|c [|c' w]]; try discriminate. exists c. repeat split; auto.
+    destruct cs; [injection Hc as ->; reflexivity|]. cbn in Hc. injection Hc as Hc. exact Hc.
+  Qed.
+  Lemma D_lit2_inv cs k1 k2 i ns j : D G s (ELit cs [k1; k2]) i ns j ->
+    exists c1 c2, ns = [Leaf [c1; c2] i 2] /\ j = i + 2 /\ sk i = c1 :: c2 :: sk j /\
+              (if cs then c1 = k1 /\ c2 = k2 else fold_cp c1 = fold_cp k1 /\ fold_cp c2 = fold_cp k2).
+  Proof.
+    intros H. apply D_lit_inv in H. destruct H as (w & -> & -> & E & L & Hc). cbn [length] in *.
+    destruct w as [|c1 [|c2 [|c' w]]]; try discriminate. exists c1, c2. repeat split; auto.
+    destruct cs; [injection Hc as -> ->; split; reflexivity|]. cbn in Hc. injection Hc as H1 H2. split; assumption.
+  Qed.
+  (* a case-insensitive one-character literal that is not a letter *)
+  Lemma D_sym_inv k i ns j : ((k <? 65) || (122 <? k) || ((90 <? k) && (k <? 97)))%N = true ->
+    D G s (ELit false [k]) i ns j -> ns = [Leaf [k] i 1] /\ j = i + 1 /\ sk i = k :: sk j.
+  Proof.
+    intros Hk H. apply D_lit1_inv in H. destruct H as (c & -> & -> & E & Hc).
+    assert (Hf : fold_cp k = k).
+    { unfold fold_cp. destruct (N.leb_spec 65 k); destruct (N.leb_spec k 90); cbn [andb]; try reflexivity.
+      exfalso. apply orb_true_iff in Hk. destruct Hk as [Hk|Hk].
+      - apply orb_true_iff in Hk. destruct Hk as [Hk|Hk]; apply N.ltb_lt in Hk; lia.
+      - apply andb_true_iff in Hk. destruct Hk as [Hk _]. apply N.ltb_lt in Hk. lia. }
+    rewrite Hf in Hc. assert (c = k).
+    { apply (fold_cp_nonletter c k Hc). apply orb_true_iff in Hk. destruct Hk as [Hk|Hk].
+      - apply orb_true_iff in Hk. destruct Hk as [Hk|Hk]; apply N.ltb_lt in Hk; apply orb_true_iff;
+          [left|right]; apply N.ltb_lt; lia.
+      - apply andb_true_iff in Hk. destruct Hk as [_ Hk]. rewrite Hk. reflexivity. }
+    subst c. auto.
+  Qed.
+  Lemma D_range_inv lo hi i ns j : D G s (ERange lo hi) i ns j ->
+    exists c, ns = [Leaf [c] i 1] /\ j = i + 1 /\ sk i = c :: sk j /\ (lo <= c)%N /\ (c <= hi)%N.
+  Proof.
+    intros H. inversion H; subst. exists c. repeat split; auto. apply sk_nth. assumption.
+  Qed.
+End Inv.
+
+(* ------------------------------------------------------------------------------------------ *)
+(** * Reader primitives on explicit texts *)
+Definition nofirst (p : cp -> bool) (r : str) : Prop :=
+  match r with c :: _ => p c = false | [] => True end.
+
+Lemma span__app p vs r : Forall (fun c => p c = true) vs -> nofirst p r ->
+  forall acc, span_ p acc (vs ++ r) = (rev acc ++ vs, r).
+Proof.
+  intros HF Hr. induction HF as [|c vs Hc _ IH]; intros acc.
+  - cbn [app]. rewrite app_nil_r. destruct r as [|c r]; cbn [span_].
+    + rewrite rev'_rev. reflexivity.
+    + cbn in Hr. rewrite Hr, rev'_rev. reflexivity.
+  - cbn [app span_]. rewrite Hc, IH. cbn [rev]. rewrite <- app_assoc. reflexivity.
+Qed.
+Lemma span_app p vs r : Forall (fun c => p c = true) vs -> nofirst p r -> span p (vs ++ r) = (vs, r).
+Proof. intros HF Hr. unfold span. rewrite (span__app p vs r HF Hr []). reflexivity. Qed.
+
+Lemma Forall_forallb {A} (p : A -> bool) l : Forall (fun c => p c = true) l -> forallb p l = true.
+Proof. intros H. induction H; cbn; [reflexivity|]. rewrite H, IHForall. reflexivity. Qed.
+
+(* the follow set of an element: what can come after a repetition in a derivation *)
+Definition is_follow (c : cp) : bool :=
+  is 32 c || is 9 c || is 59 c || is 13 c || is 47 c || is 41 c || is 93 c.
+Definition fol (r : str) : Prop := match r with c :: _ => is_follow c = true | [] => True end.
+Definition is_hexch (c : cp) : bool := is_digit c || between 65 70 c || between 97 102 c.
+
+Lemma is_follow_cases c : is_follow c = true ->
+  c = 32%N \/ c = 9%N \/ c = 59%N \/ c = 13%N \/ c = 47%N \/ c = 41%N \/ c = 93%N.
+Proof.
+  unfold is_follow, is. intros H.
+  repeat (apply orb_true_iff in H; destruct H as [H|H]); apply N.eqb_eq in H; subst; auto 10.
+Qed.
+Ltac follow_cases H :=
+  apply is_follow_cases in H;
+  destruct H as [H|[H|[H|[H|[H|[H|H]]]]]]; subst.
+
+Lemma fol_nofirst (p : cp -> bool) r :
+  (forall c, is_follow c = true -> p c = false) -> fol r -> nofirst p r.
+Proof. intros Hp. destruct r as [|c r]; cbn; [trivial|]. apply Hp. Qed.
+Lemma follow_namechar c : is_follow c = true -> is_namechar c = false.
+Proof. intros H. follow_cases H; reflexivity. Qed.
+Lemma follow_numch c : is_follow c = true -> (is_hexch c || is 46 c || is 45 c) = false.
+Proof. intros H. follow_cases H; reflexivity. Qed.
+
+(* digits *)
+Lemma rd_digit_ok b c : (b = 2 \/ b = 10 \/ b = 16)%N -> digit_ok b c = true ->
+  AbnfRead.digit_val b c = Some (digit_of c).
+Proof.
+  intros Hb H. unfold digit_ok in H. unfold AbnfRead.digit_val, is_digit, between, digit_of.
+  destruct Hb as [ -> | [ -> | -> ] ]; cbn [N.eqb Pos.eqb] in H; unfold is_bit, is_hex, is_dec in H;
+    cmp_cases; try (exfalso; lia);
+    repeat match goal with |- context [N.ltb ?a ?b] => destruct (N.ltb_spec a b) end;
+    try (exfalso; lia); try (f_equal; lia).
+Qed.
+Lemma rd_digit_none b c : is_hexch c = false -> AbnfRead.digit_val b c = None.
+Proof.
+  unfold is_hexch, AbnfRead.digit_val. intros H. apply orb_false_iff in H. destruct H as [H H3].
+  apply orb_false_iff in H. destruct H as [H1 H2]. rewrite H1, H2, H3. reflexivity.
+Qed.
+Lemma rd_digit10_none c : is_digit c = false -> AbnfRead.digit_val 10 c = None.
+Proof.
+  unfold AbnfRead.digit_val. intros H. rewrite H. unfold between.
+  destruct (N.leb_spec 65 c); destruct (N.leb_spec c 70); cbn [andb].
+  - destruct (N.ltb_spec (c - 65 + 10) 10); [lia|reflexivity].
+  - destruct (N.leb_spec 97 c); destruct (N.leb_spec c 102); cbn [andb]; try reflexivity.
+    destruct (N.ltb_spec (c - 97 + 10) 10); [lia|reflexivity].
+  - destruct (N.leb_spec 97 c); destruct (N.leb_spec c 102); cbn [andb]; try reflexivity.
+    destruct (N.ltb_spec (c - 97 + 10) 10); [lia|reflexivity].
+  - destruct (N.leb_spec 97 c); destruct (N.leb_spec c 102); cbn [andb]; try reflexivity.
+    destruct (N.ltb_spec (c - 97 + 10) 10); [lia|reflexivity].
+Qed.
+
+Definition nodigit (b : N) (r : str) : Prop :=
+  match r with c :: _ => AbnfRead.digit_val b c = None | [] => True end.
+
+Lemma number__spec b ds r : (b = 2 \/ b = 10 \/ b = 16)%N ->
+  Forall (fun c => digit_ok b c = true) ds -> nodigit b r ->
+  forall acc, number_ b acc (ds ++ r) = ((acc * b ^ N.of_nat (length ds) + pos_val b ds)%N, r).
+Proof.
+  intros Hb HF Hr. induction HF as [|d ds Hd _ IH]; intros acc.
+  - cbn [app length pos_val]. replace (acc * b ^ N.of_nat 0 + 0)%N with acc by (cbn; lia).
+    destruct r as [|c r]; cbn [number_]; [reflexivity|]. cbn in Hr. rewrite Hr. reflexivity.
+  - cbn [app number_]. rewrite (rd_digit_ok b d Hb Hd), IH. f_equal.
+    cbn [length pos_val]. rewrite Nat2N.inj_succ, N.pow_succ_r'. ring.
+Qed.
+Lemma number_spec b ds r : (b = 2 \/ b = 10 \/ b = 16)%N ->
+  Forall (fun c => digit_ok b c = true) ds -> ds <> [] -> nodigit b r ->
+  number b (ds ++ r) = Some (pos_val b ds, r).
+Proof.
+  intros Hb HF Hne Hr. destruct ds as [|d ds]; [contradiction|]. inversion HF as [|x l Hd HF']; subst.
+  cbn [app number]. rewrite (rd_digit_ok b d Hb Hd), (number__spec b ds r Hb HF' Hr). reflexivity.
+Qed.
+Lemma number_none b r : nodigit b r -> number b r = None.
+Proof. destruct r as [|c r]; cbn; [reflexivity|]. intros ->. reflexivity. Qed.
+
+Lemma opt_count_spec ds r : Forall (fun c => digit_ok 10 c = true) ds -> nodigit 10 r ->
+  opt_count (ds ++ r) = (opt_dec ds, r).
+Proof.
+  intros HF Hr. unfold opt_count. destruct ds as [|d ds].
+  - cbn [app]. rewrite (number_none 10 r Hr). reflexivity.
+  - rewrite (number_spec 10 (d :: ds) r) by (auto; discriminate). reflexivity.
+Qed.
